@@ -37,6 +37,7 @@ type concEv struct {
 	Ev  string `json:"ev"`
 	A   uint64 `json:"-"`
 	Ok  bool   `json:"ok"`
+	Got int    `json:"got,omitempty"` // result of a call that was not as required
 }
 
 // TestVerifConcStress: N mocker goroutines (own builder, own target, targets adjacent in one code page) apply,
@@ -104,6 +105,9 @@ func TestVerifConcStress(t *testing.T) {
 				call := func(want int) {
 					got := tg.f(5)
 					e := concEv{Seq: atomic.AddInt64(&seq, 1), G: me, Ev: "call", Ok: got == want}
+					if got != want {
+						e.Got = got
+					}
 					mu.Lock()
 					evs = append(evs, e)
 					mu.Unlock()
@@ -143,7 +147,7 @@ func TestVerifConcStress(t *testing.T) {
 						continue
 					}
 					if got != 6005 {
-						e := concEv{Seq: atomic.AddInt64(&seq, 1), G: me, Ev: "call", Ok: false}
+						e := concEv{Seq: atomic.AddInt64(&seq, 1), G: me, Ev: "call", Ok: false, Got: got}
 						mu.Lock()
 						evs = append(evs, e)
 						mu.Unlock()
